@@ -543,6 +543,71 @@ def stress_snapshots(ctx):
     return cases
 
 
+def boundary_snapshots(ctx):
+    """Values that pass THROUGH the sizes at which the dump's length encoding changes (64, 16384, 65536 bytes or elements): a string
+    grown by APPEND, a list grown by RPUSH, a key whose NAME has that length, with a save after every step (SAVE and BGSAVE in
+    turn); every dump is loaded by the real loader and must hold exactly what the keys held — including the keys written behind
+    the boundary value (a length that reads back wrong shifts everything after it)."""
+    from client import Client
+    srv = ctx.new_server(name='bound')
+    tr = ctx.new_trace('bound')
+    cl = Client(srv.port, timeout=30.0)
+    dump = os.path.join(srv.dir, 'dump.rdb')
+    cases = 0
+    walks = [(61, 67), (16381, 16388)] if ctx.quick else [(61, 67), (253, 259), (16381, 16388), (65533, 65539)]
+    try:
+        for lo, hi in walks:
+            cl.call([b'FLUSHALL'])
+            cl.call([b'SET', b'S', b'a' * (lo - 1)])
+            for i in range(0, lo - 1, 4000):
+                cl.call([b'RPUSH', b'B'] + [b'%d' % j for j in range(i, min(i + 4000, lo - 1))], 30.0)
+            cl.call([b'SET', b'zz-behind', b'sentinel'])
+            for n in range(lo, hi + 1):
+                cl.call([b'APPEND', b'S', b'a'])
+                cl.call([b'RPUSH', b'B', b'%d' % (n - 1)])
+                name = b'n' * n
+                cl.call([b'SET', name, b'named'])
+                if n % 2:
+                    r = cl.call([b'SAVE'], 60.0)
+                    done = r == ('st', b'OK')
+                else:
+                    cl.call([b'BGSAVE'], 30.0)
+                    done = wait_bgsave(srv, 60.0)
+                copy = os.path.join(ctx.out, 'bound.rdb')
+                shutil.copy(dump, copy)
+                res = rdbload(copy, timeout=120)
+                why = ''
+                if not done or res.get('result') != 'ok':
+                    why = 'save %s, load %s %s' % (done, res.get('result'), str(res.get('error', res.get('status', '')))[:100])
+                else:
+                    db = res['dbs'].get('0', {})
+                    get = lambda k: (db.get(k.hex()) or [None, None])[1]
+                    S, Bv = get(b'S'), get(b'B')
+                    if S is None or bytes.fromhex(S) != b'a' * n:
+                        why = 'string of %d bytes came back as %s bytes' % (n, None if S is None else len(S) // 2)
+                    elif Bv is None or [bytes.fromhex(x) for x in Bv] != [b'%d' % j for j in range(n)]:
+                        why = 'list of %d elements came back with %s' % (n, None if Bv is None else len(Bv))
+                    elif get(name) is None or bytes.fromhex(get(name)) != b'named':
+                        why = 'key with a name of %d bytes is missing or changed' % n
+                    elif get(b'zz-behind') is None or bytes.fromhex(get(b'zz-behind')) != b'sentinel':
+                        why = 'the key written behind the boundary values is missing or changed'
+                    elif len(db) != 3 + (n - lo + 1):
+                        why = '%d keys in the dump, %d in the dataset' % (len(db), 3 + (n - lo + 1))
+                tr.emit({'k': 'chk', 'name': 'dump_with_values_of_size_%d_loads_back_exactly' % n, 'ok': 0 if why else 1, 'detail': why})
+                os.remove(copy)
+                cases += 1
+                if not srv.alive():
+                    tr.emit({'k': 'crash', 'status': srv.exit_status()})
+                    break
+    except (OSError, ServerDied):
+        tr.emit({'k': 'crash', 'status': srv.exit_status()})
+    cl.close()
+    ctx.validate(tr, label='boundary-snapshots')
+    srv.kill()
+    ctx.extra_cov['boundary_snapshots'] = cases
+    return cases
+
+
 def stress_small_snapshots(ctx):
     """Hundreds of background saves back to back of a SMALL dataset under a writer: eight keys that are only ever written together with
     a deadline (SET ... PX, DEL + SET ... NX EX, SETEX) — a writer that stores the value and attaches the deadline in two steps is
@@ -725,6 +790,7 @@ def run(ctx):
     n2 += autosave_schedules(ctx)
     n2 += stress_snapshots(ctx)
     n2 += stress_small_snapshots(ctx)
+    n2 += boundary_snapshots(ctx)
     n3 = corruption(ctx)
     ctx.extra_cov['distinct_cases'] = n1 + n2 + n3
     ctx.extra_cov['fault_points'] = n1
